@@ -149,7 +149,7 @@ Qed.
 
 Lemma gen_step_inv o g : ginv g -> ginv (fst (gen_step o g)).
 Proof.
-  intros Hi. destruct o as [limit os|seq sw ex os|ex|now| |l ex]; simpl.
+  intros Hi. destruct o as [limit os|seq sw ex os|ex|now| |l ex| ]; simpl.
   - unfold gen_set_max. destruct (g_len0 g); [assumption|].
     destruct (issue_n _ os g) as [g' r] eqn:E. simpl. eapply issue_n_inv; eauto.
   - unfold gen_retire. destruct (g_highest g <? seq); [assumption|].
@@ -170,6 +170,7 @@ Proof.
   - unfold gen_remove_retired. destruct (remove_retired now (g_toretire g) (g_log g)) as [l log] eqn:E.
     destruct Hi as (Hnd & Hle & Hs). destruct (remove_retired_spec _ _ _ _ _ E Hs) as (Hs' & _).
     unfold ginv; simpl. auto.
+  - assumption.
   - assumption.
   - assumption.
 Qed.
@@ -217,7 +218,7 @@ Lemma gen_step_bound L o g :
   zlength (g_active g) <= Z.max 1 (Z.min L MaxIssuedConnectionIDs) ->
   zlength (g_active (fst (gen_step o g))) <= Z.max 1 (Z.min L MaxIssuedConnectionIDs).
 Proof.
-  intros HL Hb. destruct o as [limit os|seq sw ex os|ex|now| |l ex]; simpl in *.
+  intros HL Hb. destruct o as [limit os|seq sw ex os|ex|now| |l ex| ]; simpl in *.
   - unfold gen_set_max. destruct (g_len0 g); [assumption|].
     destruct (issue_n _ os g) as [g' r] eqn:E. simpl. apply issue_n_len in E. lia.
   - unfold gen_retire. destruct (g_highest g <? seq); [assumption|].
@@ -230,6 +231,7 @@ Proof.
     apply issue_len in E. simpl in *. lia.
   - unfold gen_hsdone. destruct (g_initial g); assumption.
   - unfold gen_remove_retired. destruct (remove_retired _ _ _). assumption.
+  - assumption.
   - assumption.
   - assumption.
 Qed.
@@ -302,7 +304,7 @@ Qed.
 
 Lemma gen_step_frames o g : ginv g -> frames_ok g -> frames_ok (fst (gen_step o g)).
 Proof.
-  intros Hinv Hi. destruct o as [limit os|seq sw ex os|ex|now| |l ex]; simpl.
+  intros Hinv Hi. destruct o as [limit os|seq sw ex os|ex|now| |l ex| ]; simpl.
   - unfold gen_set_max. destruct (g_len0 g); [assumption|].
     destruct (issue_n _ os g) as [g' r] eqn:E. simpl. eapply issue_n_frames; eauto.
   - unfold gen_retire. destruct (g_highest g <? seq); [assumption|].
@@ -317,6 +319,7 @@ Proof.
     destruct Hinv as (_ & _ & Hs). destruct (remove_retired_spec _ _ _ _ _ E Hs) as (_ & _ & gone & _ & -> & _).
     destruct Hi as (n & Hh & Hf). exists n. simpl. rewrite frames_app, frames_rev_rem. auto.
   - destruct Hi as (n & Hh & Hf). exists n. simpl. rewrite frames_app, frames_rev_rem. auto.
+  - assumption.
   - assumption.
 Qed.
 
@@ -393,7 +396,7 @@ Definition not_close (o : gop) : Prop :=
 
 Lemma gen_step_route i cd o g : not_close o -> ginv g -> route_inv i cd g -> route_inv i cd (fst (gen_step o g)).
 Proof.
-  intros Hnc Hinv Hr. destruct o as [limit os|seq sw ex os|ex|now| |l ex]; simpl.
+  intros Hnc Hinv Hr. destruct o as [limit os|seq sw ex os|ex|now| |l ex| ]; simpl.
   - unfold gen_set_max. destruct (g_len0 g); [assumption|].
     destruct (issue_n _ os g) as [g' r] eqn:E. simpl. eapply issue_n_route; eauto.
   - unfold gen_retire. destruct (g_highest g <? seq); [assumption|].
@@ -416,6 +419,7 @@ Proof.
     rewrite rcount_app, rcount_rev_rem. rewrite Hl in Hr. rewrite map_app, cnt_app in Hr. lia.
   - destruct Hnc.
   - intros x. specialize (Hr x). unfold routed in *. simpl. assumption.
+  - assumption.
 Qed.
 
 Lemma gen_run_route i cd ops : forall g, Forall not_close ops -> ginv g -> route_inv i cd g ->
